@@ -1,0 +1,39 @@
+//go:build verif
+
+package oned
+
+// Read-only views of unexported data for the verification harness in /verif.
+// Compiled only with -tags verif; no behaviour change.
+
+func verifCopy2(t [][]int) [][]int {
+	out := make([][]int, len(t))
+	for i := range t {
+		out[i] = append([]int(nil), t[i]...)
+	}
+	return out
+}
+
+// VerifConvertUPCEtoUPCA exposes the UPC-E to UPC-A expansion.
+func VerifConvertUPCEtoUPCA(upce string) string { return convertUPCEtoUPCA(upce) }
+
+// VerifPatternTables returns copies of the run-length pattern tables that are
+// matched with PatternMatchVariance.
+func VerifPatternTables() map[string][][]int {
+	return map[string][][]int{
+		"upcean_start_end": {append([]int(nil), UPCEANReader_START_END_PATTERN...)},
+		"upcean_middle":    {append([]int(nil), UPCEANReader_MIDDLE_PATTERN...)},
+		"upcean_end":       {append([]int(nil), UPCEANReader_END_PATTERN...)},
+		"upce_middle_end":  {append([]int(nil), upce_MIDDLE_END_PATTERN...)},
+		"upcean_l":         verifCopy2(UPCEANReader_L_PATTERNS),
+		"upcean_l_and_g":   verifCopy2(UPCEANReader_L_AND_G_PATTERNS),
+		"code128":          verifCopy2(code128CODE_PATTERNS),
+		"itf":              verifCopy2(itfReader_PATTERNS),
+		"itf_start":        {append([]int(nil), itfReader_START_PATTERN...)},
+		"itf_end_reversed": verifCopy2(itfReader_END_PATTERN_REVERSED),
+	}
+}
+
+// VerifUPCENumSysAndCheckDigitPatterns returns a copy of the UPC-E parity table.
+func VerifUPCENumSysAndCheckDigitPatterns() [][]int {
+	return verifCopy2(upce_NUMSYS_AND_CHECK_DIGIT_PATTERNS)
+}
